@@ -3,6 +3,9 @@ use crate::{Cache, DefaultEvictCallback, DefaultHashBuilder, KeyRef, PutResult};
 use core::borrow::Borrow;
 use core::hash::{BuildHasher, Hash};
 
+#[cfg(feature = "verif-hooks")]
+mod verif;
+
 /// `SegmentedCacheBuilder` is used to help build a [`SegmentedCache`] with custom configurations.
 ///
 /// [`SegmentedCache`]: struct.SegmentedCache.html
